@@ -98,10 +98,20 @@ def construct(rng, x, y, guard):
         return Weaver.from_2d_array(xy), "from_2d_array(writeable=%s)" % xy.flags.writeable
     if t == 4:
         import pandas as pd
-        df = pd.DataFrame({"t": np.array(x), "v": np.array(y)})
-        guard.add("df.t", df["t"])
-        guard.add("df.v", df["v"])
-        return Weaver.from_dataframe(df, x_col="t", y_col="v"), "from_dataframe"
+        if rng.integers(0, 2):
+            df = pd.DataFrame({0: np.array(x), 1: np.array(y)})          # documented defaults: columns 0 and 1
+            guard.add("df[0]", df[0])
+            guard.add("df[1]", df[1])
+            wv = Weaver.from_dataframe(df)
+        else:
+            df = pd.DataFrame({"extra": np.zeros(len(x)), "t": np.array(x), "v": np.array(y)})
+            guard.add("df.t", df["t"])
+            guard.add("df.v", df["v"])
+            wv = Weaver.from_dataframe(df, x_col="t", y_col="v")
+        gx, gy = wv.get()
+        if not (np.array_equal(gx, x) and np.array_equal(gy, y)):
+            raise AssertionError("from_dataframe did not take the requested columns")
+        return wv, "from_dataframe"
     if t == 5:
         yin, yk = gen.as_container(rng, y)
         guard.add("y(%s)" % yk, yin)
